@@ -383,7 +383,8 @@ REFUTE_MSGS = (
     "possible arithmetic underflow/overflow", "possible division by zero", "decreases not satisfied",
     "loop invariant not satisfied", "invariant not satisfied at end of loop body", "invariant not satisfied before loop",
     "possible bit shift underflow/overflow", "unreachable", "failed precondition", "recommendation not met",
-    "could not prove termination", "index out of bounds",
+    "could not prove termination", "index out of bounds", "may fail to meet its declared type invariant",
+    "cannot show invariant holds", "type invariant",
 )
 LIMIT_MSGS = ("Resource limit (rlimit) exceeded", "while loop: Resource limit", "resource limit", "timed out", "canceled")
 
